@@ -32,6 +32,27 @@ def shipped_data_facts(rep):
     rep.assumed_validation.append({"what": "namespace table facts", "files": len(files), "violations": len(bad)})
 
 
+def time_table_shape(rep):
+    """every value of the #time letter table is a string constant or a callable (lambda / function name): the
+    `assert callable(v)` in format_with_wiki_timeformat.fmt_repl cannot fail (finite, read from the module source)"""
+    import ast
+    mod = loader.module("parserfns")
+    node = mod.top.get("time_fmt_map")
+    bad, n = [], 0
+    val = getattr(node, "value", None)
+    if not isinstance(val, ast.Dict):
+        bad.append("time_fmt_map is not a dict literal")
+    else:
+        for k, v in zip(val.keys, val.values):
+            n += 1
+            ok = (isinstance(v, ast.Constant) and isinstance(v.value, str)) or isinstance(v, ast.Lambda) or \
+                (isinstance(v, ast.Name) and (v.id in mod.functions if hasattr(mod, "functions") else True))
+            if not ok or not (isinstance(k, ast.Constant) and isinstance(k.value, str)):
+                bad.append(loader.norm(k)[:20])
+    rep.add_obligation("parserfns:time_fmt_map#finite#keys-are-strings-values-are-strings-or-callables", "finite",
+                       "proved" if n and not bad else "refuted", "enumeration", detail=f"{n} entries; offending: {bad[:5]}")
+
+
 def guarded_conversions(rep):
     """P4: every int(NAME) outside parserfns.py is dominated by NAME.isdecimal()
     (same `and` chain or enclosing if); lemma isdecimal(s) => int-parsable(s) by z3
@@ -127,6 +148,7 @@ def main(tier):
     shipped_data_facts(rep)
     table_is_total(rep)
     nsites = guarded_conversions(rep)
+    time_table_shape(rep)
     for name, why in c05.DECLARED_OUT_OF_REACH.items():
         rep.assumptions.append(f"out of reach (bounded tier only): parserfns:{name}: {why}")
     try:
